@@ -57,6 +57,7 @@ typedef struct actor {
     int depth[MAXO];     /* recursion depth per mutex held by this actor */
     int rheld[MAXO];     /* rwlock mode held: 0 none 1 rd 2 wr */
     int popped;          /* unit index last popped by this actor, -1 none */
+    int skip_mutex, skip_depth;
 } actor;
 
 typedef struct {
@@ -80,7 +81,7 @@ typedef struct {
 struct globals {
     /* config */
     uint64_t seed;
-    int strat, pct_d, native, want_hist, mode;
+    int strat, pct_d, native, want_hist, mode, drain;
     unsigned mask, spin;
     uint64_t pct_len, step_limit;
     actor main_a, ext[MAXEXT], unit[MAXU];
